@@ -106,6 +106,7 @@ func callIntrinsic(fr *frame, fn *ssa.Function, args []value) (value, bool) {
 			b := x.nondet("byte", types.Uint8, smt.Int)
 			x.assume(tb.And(tb.Le(tb.IntC(0), b.t), tb.Le(b.t, tb.IntC(255))))
 			parts[i] = tb.FromCode(b.t)
+			tb.MarkUnit(parts[i])
 		}
 		return x.mkSym(types.String, tb.Concat(parts...)), true
 	case "zzvAssume":
